@@ -33,6 +33,7 @@ def gen_history(rng, n_series, length):
 
 class C16(object):
     id = 'C16'
+    anchors = ('Model.GetTimeSeries', 'BaseSolver.CreateCsvString', 'TimeSeriesHolder.GenerateCSVtext', 'EquationSolver.GenerateCSVtext')
     title = 'Reading results never changes them'
     rule = ('one case = one history of 2-30 reader calls (Model.GetTimeSeries with random cutoff / default cutoff / '
             'time-zero suppression / series group main|step|initial, EquationSolver.GenerateCSVtext, '
